@@ -8,6 +8,13 @@
 //
 //	"tcp" in-memory net.Listener, "udp" a real loopback socket (port 0).
 //
+// Lifecycle phases (Admission!Phases): "serving" -- the message is injected into a running server and disposed of
+// before any Shutdown; "stopping" -- one server life per message, its reader wrapped through Server.DecorateReader:
+// when the read that carries the message has completed successfully the wrapper holds it back, the harness calls
+// Shutdown and waits (hook shutdown.unlock, an observation only) until started is false, the readers are kicked and
+// srv.lock is free again, and only then does the read return -- with the message, err == nil.  Everything is forced by
+// hand-offs, nothing by timing; on the real socket a datagram that never reaches the reader is "lost" (no observation).
+//
 // "No reply" is never inferred from the passage of time: on pc the harness waits until the
 // server loop is back in ReadFrom and then shuts the server down (Shutdown waits for every
 // packet goroutine); on tcp a sentinel query follows the probe on the same connection and the
@@ -24,6 +31,7 @@ import (
 	"os"
 	"reflect"
 	"strconv"
+	"strings"
 	"sync"
 	"sync/atomic"
 	"time"
@@ -433,6 +441,196 @@ func probeUDP(r *rec, pkt []byte) obs {
 	return o
 }
 
+// ------------------------------------------------------------------ phase "stopping"
+
+// unlocked: servers whose next Shutdown the harness wants to hear about (closed by the shutdown.unlock hook: started
+// is false, the listener is closed / the deadlines are moved, srv.lock is about to be released).
+var unlocked sync.Map // *dns.Server -> *stopSignal
+
+type stopSignal struct {
+	once sync.Once
+	ch   chan struct{}
+}
+
+func installHook() {
+	dns.VerifHook = func(ev string, srv *dns.Server, a, b uintptr) {
+		if ev == dns.VerifEvShutUnlock {
+			if s, ok := unlocked.Load(srv); ok {
+				ss := s.(*stopSignal)
+				ss.once.Do(func() { close(ss.ch) })
+			}
+		}
+	}
+}
+
+// stoppingReader holds back the first successful read until the harness says so.
+type stoppingReader struct {
+	dns.Reader
+	got     chan struct{} // closed when the first read that returned a message has completed
+	release chan struct{} // closed by the harness
+	once    *sync.Once
+}
+
+func newStoppingReader() *stoppingReader {
+	return &stoppingReader{got: make(chan struct{}), release: make(chan struct{}), once: new(sync.Once)}
+}
+
+func (s *stoppingReader) wrap(rd dns.Reader) dns.Reader {
+	return &stoppingReader{Reader: rd, got: s.got, release: s.release, once: s.once}
+}
+
+func (s *stoppingReader) hold(err error) {
+	if err != nil {
+		return
+	}
+	first := false
+	s.once.Do(func() { first = true })
+	if first {
+		close(s.got)
+		<-s.release
+	}
+}
+
+func (s *stoppingReader) ReadTCP(conn net.Conn, timeout time.Duration) ([]byte, error) {
+	m, err := s.Reader.ReadTCP(conn, timeout)
+	s.hold(err)
+	return m, err
+}
+
+func (s *stoppingReader) ReadUDP(conn *net.UDPConn, timeout time.Duration) ([]byte, *dns.SessionUDP, error) {
+	m, su, err := s.Reader.ReadUDP(conn, timeout)
+	s.hold(err)
+	return m, su, err
+}
+
+func (s *stoppingReader) ReadPacketConn(conn net.PacketConn, timeout time.Duration) ([]byte, net.Addr, error) {
+	m, a, err := s.Reader.(dns.PacketConnReader).ReadPacketConn(conn, timeout)
+	s.hold(err)
+	return m, a, err
+}
+
+// stopWhileHeld: the message has been read and is held back; Shutdown is called and, once it has released srv.lock,
+// the read returns.  Shutdown and the serve call must then both come back (nil).
+func stopWhileHeld(tr string, srv *dns.Server, rd *stoppingReader, done chan error) {
+	sig := &stopSignal{ch: make(chan struct{})}
+	unlocked.Store(srv, sig)
+	defer unlocked.Delete(srv)
+	shut := make(chan error, 1)
+	go func() { shut <- srv.Shutdown() }()
+	<-sig.ch
+	close(rd.release)
+	if err := <-shut; err != nil {
+		hx.Die("%s shutdown (stopping): %v", tr, err)
+	}
+	if err := <-done; err != nil {
+		hx.Die("%s serve (stopping): %v", tr, err)
+	}
+}
+
+func probePCStopping(r *rec, pkt []byte) obs {
+	pc := memnet.NewPacketConn()
+	started := make(chan struct{})
+	rd := newStoppingReader()
+	srv := &dns.Server{PacketConn: pc, Handler: r, MsgInvalidFunc: r.invalidFn, ReadTimeout: time.Hour,
+		NotifyStartedFunc: func() { close(started) }, MsgAcceptFunc: r.accept, DecorateReader: rd.wrap}
+	done := make(chan error, 1)
+	go func() { done <- srv.ActivateAndServe() }()
+	<-started
+	pc.Inject(memnet.Addr("probe"), pkt)
+	<-rd.got
+	stopWhileHeld("pc", srv, rd, done)
+	o := r.take()
+	for _, p := range pc.Sent() {
+		o.Replies = append(o.Replies, p.Data)
+	}
+	return o
+}
+
+func splitFrames(data []byte) (out [][]byte) {
+	for len(data) >= 2 {
+		n := int(binary.BigEndian.Uint16(data))
+		if 2+n > len(data) {
+			n = len(data) - 2
+		}
+		out = append(out, data[2:2+n])
+		data = data[2+n:]
+	}
+	if len(data) > 0 {
+		out = append(out, data)
+	}
+	return out
+}
+
+// tcp: a server life and a connection of its own; the connection is served to its end (the worker leaves its loop
+// because the server is not started any more), so "no reply" is "the stream ended without one".
+func probeTCPStopping(r *rec, pkt []byte) obs {
+	l := memnet.NewListener()
+	started := make(chan struct{})
+	rd := newStoppingReader()
+	srv := &dns.Server{Listener: l, Handler: r, MsgInvalidFunc: r.invalidFn, ReadTimeout: time.Hour,
+		IdleTimeout: func() time.Duration { return time.Hour }, MaxTCPQueries: -1,
+		NotifyStartedFunc: func() { close(started) }, MsgAcceptFunc: r.accept, DecorateReader: rd.wrap}
+	done := make(chan error, 1)
+	go func() { done <- srv.ActivateAndServe() }()
+	<-started
+	c := l.Dial()
+	writeFrame(c, pkt)
+	<-rd.got
+	stopWhileHeld("tcp", srv, rd, done)
+	data, _ := io.ReadAll(c)
+	c.Close()
+	o := r.take()
+	o.Replies = splitFrames(data)
+	return o
+}
+
+// udp: the real socket.  A datagram that has not reached the reader after 3 s counts as lost (no observation).
+func probeUDPStopping(r *rec, pkt []byte) obs {
+	sc, err := net.ListenUDP("udp", &net.UDPAddr{IP: net.IPv4(127, 0, 0, 1), Port: 0})
+	if err != nil {
+		hx.Die("listen udp: %v", err)
+	}
+	started := make(chan struct{})
+	rd := newStoppingReader()
+	srv := &dns.Server{PacketConn: sc, Handler: r, MsgInvalidFunc: r.invalidFn, ReadTimeout: time.Hour,
+		NotifyStartedFunc: func() { close(started) }, DecorateReader: rd.wrap}
+	done := make(chan error, 1)
+	go func() { done <- srv.ActivateAndServe() }()
+	<-started
+	cc, err := net.DialUDP("udp", nil, sc.LocalAddr().(*net.UDPAddr))
+	if err != nil {
+		hx.Die("dial udp: %v", err)
+	}
+	defer cc.Close()
+	if _, err := cc.Write(pkt); err != nil {
+		hx.Die("udp write: %v", err)
+	}
+	lost := false
+	select {
+	case <-rd.got:
+		stopWhileHeld("udp", srv, rd, done)
+	case <-time.After(3 * time.Second):
+		lost = true
+		close(rd.release) // should the datagram still arrive it is not held back
+		srv.Shutdown()
+		<-done
+	}
+	var replies [][]byte
+	buf := make([]byte, 65536)
+	for {
+		cc.SetReadDeadline(time.Now().Add(30 * time.Millisecond))
+		n, err := cc.Read(buf)
+		if err != nil {
+			break
+		}
+		replies = append(replies, append([]byte(nil), buf[:n]...))
+	}
+	o := r.take()
+	o.Replies = replies
+	o.Lost = lost
+	return o
+}
+
 // ------------------------------------------------------------------ vectors
 
 type expRec struct {
@@ -467,6 +665,7 @@ type reqRec struct {
 
 type vec struct {
 	Kind   string `json:"kind"`
+	Phase  string `json:"phase"` // pkt: Admission!Phases ("" = "serving")
 	Pkt    hx.B   `json:"pkt"`
 	Hdr    hdr    `json:"hdr"`
 	Body   int    `json:"body"`
@@ -508,6 +707,17 @@ func shapeDiff(got hdr, e expRec) string {
 	return ""
 }
 
+func stopping(v *vec) bool {
+	switch v.Phase {
+	case "", "serving":
+		return false
+	case "stopping":
+		return true
+	}
+	hx.Die("unknown phase %q", v.Phase)
+	return false
+}
+
 func polClass(v *vec) string {
 	if len(v.Pkt) < 12 {
 		return "short"
@@ -529,6 +739,10 @@ func judgePkt(v *vec, tr string, o obs, sum *hx.Summary) {
 	seg := ""
 	if v.Seg != "" {
 		seg = ", segments " + v.Seg
+	}
+	if stopping(v) {
+		pre += "stopping/"
+		seg += ", read completes while Shutdown is in progress"
 	}
 	mis := func(key, what string) {
 		sum.Mis(pre+key, fmt.Sprintf("[%s%s, policy %s, body %d, %d octets] %s", tr, seg, pc, v.Body, len(pkt), what), &cs)
@@ -826,7 +1040,7 @@ func replay(path string) {
 	if hx.Thorough() {
 		udpEvery = 23
 	}
-	npkt, nroute, nudp, nlost, nseg := 0, 0, 0, 0, 0
+	npkt, nroute, nudp, nlost, nseg, nphase := 0, 0, 0, 0, 0, 0
 	var udpJobs []*vec
 	hx.ReadNDJSON(path, func(i int, v *vec) {
 		switch v.Kind {
@@ -839,6 +1053,37 @@ func replay(path string) {
 				transports = []string{v.Transport}
 			} else if i%udpEvery == 0 || len(pkt) < 12 || v.Policy == "accept" {
 				transports = append(transports, "udp")
+			}
+			if stopping(v) {
+				nphase++
+				if v.Transport == "" && !(i%7 == 0 || len(pkt) < 12 || (v.Policy == "accept" && v.Body <= 1)) {
+					transports = []string{"pc", "tcp"} // the real socket: a sample
+				}
+				for _, tr := range transports {
+					var o obs
+					switch tr {
+					case "pc":
+						guard("server-pc/stopping/hang:serve", "in-memory PacketConn, datagram read while Shutdown is in progress: not served to the end / Shutdown does not return", v, func() { o = probePCStopping(r, pkt) })
+					case "tcp":
+						guard("server-tcp/stopping/hang:serve", "in-memory listener, message read while Shutdown is in progress: not served to the end / Shutdown does not return", v, func() { o = probeTCPStopping(r, pkt) })
+					case "udp":
+						lr := &rec{}
+						for try := 0; try < 3; try++ {
+							guard("server-udp/stopping/hang:serve", "loopback socket, datagram read while Shutdown is in progress: not served to the end / Shutdown does not return", v, func() { o = probeUDPStopping(lr, pkt) })
+							if !o.Lost {
+								break
+							}
+							nlost++
+						}
+						nudp++
+						if o.Lost {
+							continue
+						}
+					}
+					sum.Evaluations++
+					judgePkt(v, tr, o, &sum)
+				}
+				break
 			}
 			for _, tr := range transports {
 				switch tr {
@@ -926,7 +1171,7 @@ func replay(path string) {
 	}
 	tcp.close()
 	sum.Nontrivial = len(seen)
-	sum.Note("admission_replay", map[string]int{"packets": npkt, "routes": nroute, "udp_probes": nudp, "udp_lost": nlost, "tcp_segmented": nseg})
+	sum.Note("admission_replay", map[string]int{"packets": npkt, "routes": nroute, "udp_probes": nudp, "udp_lost": nlost, "tcp_segmented": nseg, "stopping_phase": nphase})
 	sum.Print()
 }
 
@@ -968,6 +1213,7 @@ type pktEvent struct {
 	Replies []replySum `json:"replies"`
 	Pkt     hx.B       `json:"pkt"`
 	Mut     string     `json:"mut"`
+	Phase   string     `json:"phase"` // Admission!Phases: where a Shutdown fell relative to the message
 }
 
 type totalsEvent struct {
@@ -1101,6 +1347,27 @@ func recordPkt(out string, n int) {
 			tr = "udp"
 		}
 		var o obs
+		phase := "serving"
+		if i%5 == 3 {
+			phase = "stopping" // the read that carries the message completes while a Shutdown is in progress
+		}
+		switch {
+		case phase == "serving":
+		case tr == "pc":
+			guard("server-pc/stopping/hang:serve", "server on the in-memory PacketConn does not finish", hx.FromBytes(pkt), func() { o = probePCStopping(r, pkt) })
+			tr += "!"
+		case tr == "tcp":
+			guard("server-tcp/stopping/hang:serve", "server on the in-memory listener does not finish", hx.FromBytes(pkt), func() { o = probeTCPStopping(r, pkt) })
+			tr += "!"
+		case tr == "udp":
+			guard("server-udp/stopping/hang:serve", "server on the loopback socket does not finish", hx.FromBytes(pkt), func() { o = probeUDPStopping(r, pkt) })
+			tr += "!"
+			if o.Lost {
+				r.totalH.Add(int64(-o.Handled))
+				r.totalI.Add(int64(-o.Invalid))
+				continue
+			}
+		}
 		switch tr {
 		case "pc":
 			guard("server-pc/hang:serve", "server on the in-memory PacketConn does not finish", hx.FromBytes(pkt), func() { o = probePC(r, pkt) })
@@ -1127,7 +1394,8 @@ func recordPkt(out string, n int) {
 		}
 		received++
 		seen[string(pkt)] = true
-		ev := pktEvent{Ev: "pkt", Tr: tr, Len: len(pkt), Decodes: decodes, Handled: o.Handled, Invalid: o.Invalid, Pkt: hx.FromBytes(pkt), Mut: mut, SameReq: true}
+		tr = strings.TrimSuffix(tr, "!")
+		ev := pktEvent{Ev: "pkt", Tr: tr, Phase: phase, Len: len(pkt), Decodes: decodes, Handled: o.Handled, Invalid: o.Invalid, Pkt: hx.FromBytes(pkt), Mut: mut, SameReq: true}
 		ev.Hdr, _ = walk(pkt)
 		for _, q := range o.Reqs {
 			if !decodes || !reflect.DeepEqual(q, ref) {
@@ -1300,6 +1568,7 @@ func recordMux(out string, rounds int) {
 }
 
 func main() {
+	installHook()
 	if len(os.Args) < 3 {
 		hx.Die("usage: admission replay <vectors> | record pkt|mux <out> <n>")
 	}
